@@ -1296,7 +1296,7 @@ func c13KeyByString(pool []c13Key, s string) c13Key {
 func TestC13(t *testing.T) {
 	r := vkit.Start(t, "C13", "fault_enumeration")
 	defer r.Finish()
-	r.Rule("case = one history of 8–20 ops (create of 1–5 keys out of a 12-key escape-heavy domain covering all 8 partitions, delete with/without flush, FlushSegments, close+reopen, SeriesPartitionCompactor on random partitions) on a real tsdb.SeriesFile, half of them starting on 280–720 filler series; after every op every known key/id mapping is compared with the model; for up to 2 (quick) / 6 (thorough) ops per history the op's torn states are enumerated: every byte of every changed segment region × {zero fill, clean cut, 0xA5 fill} × {other partitions before, after}, partial index.compacting files, each reopened by the real code in a child process, checked against the acknowledged state, written to and restarted a second time. Plus concurrent-creator cases (3–6 goroutines, overlapping key sets, one deleter, background compaction on/off). non-trivial = history re-creates or deletes at least one series and contains a reopen or compaction; distinct = hash of (fillers, op list)")
+	r.Rule("case = one history of 8–20 ops (create of 1–5 keys out of a 12-key escape-heavy domain covering all 8 partitions, delete with/without flush, FlushSegments, close+reopen, SeriesPartitionCompactor on random partitions) on a real tsdb.SeriesFile, about half of them starting on 280–720 filler series; after every op every known key/id mapping is compared with the model. 10 (quick) / 60 (thorough) histories are crash histories: one op of an assigned kind (create / flushed delete / FlushSegments / compaction, aimed at partitions 6–7) has its torn states enumerated: every byte of every changed segment region × {zero fill, 0xA5 fill} × {other partitions before, after} (no clean cut: segments are pre-sized), partial index.compacting files; each image is reopened by the real code in a child process, checked against the acknowledged state, written to and (zero fill) restarted a second time. Plus concurrent-creator cases (3–6 goroutines, overlapping key sets, one deleter, background compaction on/off). non-trivial = history re-creates or deletes at least one series and contains a reopen or compaction; distinct = hash of (fillers, op list)")
 	r.Assume("crash model: process death + torn last append (DESIGN §4 M3); a NoFlush delete is acknowledged durable only after FlushSegments or Close")
 	rep := newGixReporter(r, 2)
 	domain := c13Domain()
